@@ -67,6 +67,11 @@ def att_at(schema, att, path):
             parent, name, att = a, seg, t["array"]
         elif t.get("map_key"):
             parent, name, att = a, seg, t["map_elem"]
+        elif t.get("one_of"):
+            alt = next((f["att"] for f in t["one_of"] if f["name"] == seg), None)
+            if alt is None:
+                return parent, name, None
+            parent, name, att = a, seg, alt
         else:
             nxt = dict(schema.fields(a)).get(seg)
             if nxt is None:
